@@ -158,7 +158,7 @@ fn main() {
             "rt" => roundtrip_case(&p[1], &p[2]),
             "st" => subtype_case(&p[1]),
             "deep" => deep_case(p[1].parse().unwrap(), p[2].parse().unwrap()),
-            "co" => coerce_case(&p[1], &p[2]),
+            "co" => coerce_case(&p[1], &p[2], if p.len() > 3 { &p[3] } else { "" }),
             "rd" => refdecode_case(&p[1], &p[2], &p[3]),
             "rds" => refdecode_short(&p[1], &p[2], &p[3]),
             "h" => history_case(&p[1]),
@@ -470,9 +470,9 @@ fn deep_case(depth: usize, stack_kb: usize) -> String {
 }
 
 // ---------------------------------------------------------------- coercion: decode at expected types, hand the result back re-encoded
-fn coerce_case(hexmsg: &str, tys: &str) -> String {
+fn coerce_case(hexmsg: &str, tys: &str, defs: &str) -> String {
     let bytes = hexd(hexmsg);
-    let env = candid::types::TypeEnv::new();
+    let env = tyx::parse_env(defs);
     let mut types = Vec::new();
     for t in tys.split(',').filter(|t| !t.is_empty() && *t != "-") {
         types.push(tyx::P { s: t.as_bytes(), i: 0 }.ty());
